@@ -84,8 +84,15 @@ def dumpHas (d : Dump) (k : Key) (t : TS) (v : Val) : Bool :=
 def dumpFlat (d : Dump) : List (Key × TS × Val) :=
   d.pts.flatMap (fun e => e.2.map (fun p => (e.1, p.1, p.2)))
 
+/-- same series: the restored shard lists no series the source did not list, and
+    lists every series of which the source had a readable point.  (A source may
+    list a series that has no readable point left — an index entry that a
+    compaction made stale; such an entry need not, and cannot, come back.) -/
+def sameSeries (src tgt : Dump) : Bool :=
+  tgt.series.all (fun k => src.series.contains k) && src.pts.all (fun e => tgt.series.contains e.1)
+
 /-- same readable points and series -/
-def sameContent (src tgt : Dump) : Bool := src.pts == tgt.pts && src.series == tgt.series
+def sameContent (src tgt : Dump) : Bool := src.pts == tgt.pts && sameSeries src tgt
 
 /-- incremental clause: every listed file changed after `since` is in the archive -/
 def incrementalOK (since : Option Int) (arch : List FName) (files : List (FName × MTime)) : Bool :=
@@ -176,6 +183,7 @@ def judge (recs : List Rec) : Op → Obs → List Sig × List Rec
   | .restore _, .target _ _ => ([], recs)
   | .importA _, .target _ _ => ([], recs)
   | .restore _, .badOp => ([], recs)
+  | .export .., .badOp => ([], recs)
   | .write .., .ok => ([], recs)
   | .write .., .badOp => ([], recs)
   | .delete .., .ok => ([], recs)
